@@ -153,6 +153,20 @@ PROPS = {
         "assumptions": TRUST + ["on <=3.9 line_number=None is outside the alphabet (lnotab cannot say 'no line'; to_code refuses it)"],
         "required_reach": {"quick": ["jump-units:1", "jump-units:2", "operand-units:2", "operand-units:3", "encodes-ok:G1", "encodes-ok:G2", "encodes-ok:T", "encodes-ok:LN", "encodes-ok:SG", "encodes-ok:ED", "inconsistent-overrides-refused", "overrides-accepted-consistent", "const-pair-ok:same", "const-pair-ok:distinct"], "thorough": ["jump-units:3"]},
     },
+    "C06": {
+        "level": "model_checking",
+        "interpreters": PRODUCERS,
+        "rule": "(i) explicit-state search: from every code object of every 5th program of stratum Pa (thorough: all of Pa + a third of Pb), breadth-first over the operations {code round trip, JSON round trip, normalize} applied to real CodeData values hash-consed by strict key (NaNs identified), to closure or depth 4 (thorough 6); invariants on every state: normalize idempotent, normalize(state) == normalize(from_code(c0)); a graph that does not close is a violation. (ii) every serialization variant of every code object with tables <=6 entries: all permutations (<=4 movable entries; transpositions above) of the name/constant/local/cell tables with operands renumbered (docstring slot, parameters and free variables fixed), one unreferenced padding entry at every movable position, a redundant EXTENDED_ARG 0 before each instruction in turn, a harness re-assembly with a different line-table encoding, CO_NESTED toggled; each also substituted inside its parents up to the root. Each variant is first confirmed (harness self-check) to read to CPython exactly like the original. states = CodeData values reached; transitions = operation applications; traces_validated_against_impl = graphs explored on the real implementation.",
+        "assumptions": TRUST,
+        "required_reach": {"quick": ["graph-closed", "variant:permute", "variant:pad", "variant:extended-arg-0", "variant:toggle", "variant:reassembled", "variant-nested", "variant-ok"]},
+    },
+    "C12": {
+        "level": "model_checking",
+        "interpreters": PRODUCERS,
+        "rule": "for every code object of a spread of 400 (thorough 2400) grammar programs: a store {code object, its CodeData, the normalized CodeData, their two JSON documents}; every sequence of <=2 (thorough <=3) calls among the 9 concrete calls (90 / 819 sequences per code object, run back to back on one shared store) {from_code(c), to_code(d|n), normalize(d|n), to_json_data(d|n), from_json_data(jd|jn)} on those shared objects; after every call the whole store is compared with its initial strict snapshot (documents incl. nested containers and key order) and the result with the result of the same call on untouched arguments; then one mutation (pop/clear/append) at every container path of a returned document followed by to_json_data again, and of an input document after from_json_data. states = distinct store snapshots; transitions = calls; traces_validated_against_impl = call sequences executed.",
+        "assumptions": TRUST,
+        "required_reach": {"quick": ["function-document", "pure:90-sequences"], "thorough": ["function-document", "pure:819-sequences"]},
+    },
 }
 
 BASE_NOTE = (
@@ -227,6 +241,18 @@ MANIFEST_TEXT = {
         "design_ref": "DESIGN.md section 4 C03",
         "note": BASE_NOTE,
         "technique": "bounded exhaustive enumeration of well-formed data (complete products over small alphabets around every width boundary); reference reading of the encoder's output",
+    },
+    "C06": {
+        "text": "Explicit-state model checking over real transition functions: the set of CodeData values reachable under the API's round trips and normalize is explored to closure from every initial code object, so the invariants (idempotence, history-independence of the normal form) are inductive - they hold for operation sequences of any length, not only up to the explored depth; plus exhaustive enumeration of serialization variants (table permutations, paddings, redundant prefixes, flag) of small code objects, each checked to be meaning-preserving by CPython's reading before it is used.",
+        "design_ref": "DESIGN.md section 4 C06, section 1.2 E1",
+        "note": BASE_NOTE,
+        "technique": "explicit-state BFS over API operations on real objects to closure (hash-consed by strict key) + exhaustive variant enumeration",
+    },
+    "C12": {
+        "text": "Exhaustive enumeration of API call histories (all sequences up to the depth bound over 9 concrete calls) on shared argument objects, with a full strict snapshot of every shared object after every call and comparison with the same call on untouched arguments; plus one mutation at every container path of returned/input documents.",
+        "design_ref": "DESIGN.md section 4 C12",
+        "note": BASE_NOTE,
+        "technique": "exhaustive operation-history enumeration on shared objects with state snapshots after every step",
     },
     "C13": {
         "text": "Same exhaustive space; the block partition is compared with the jump-target set computed from CPython's reading: no empty block, exact starts, every later block targeted.",
